@@ -5,10 +5,16 @@ namespace rs t_reach
 // ordered-map key / value, hash-map key / value, list / set element (ordered and hashed), typedef, optional field,
 // union variant, exception in `throws`, nested container, argument and result position.
 
-enum OnlyBtreeKey { A = 1, B = 2 }
+enum OnlyBtreeKey {
+    A = 1,
+    B = 2,
+}
 struct OnlyBtreeStructKey { 1: required i32 id }
 struct OnlyBtreeValue { 1: optional string s }
-enum OnlyHashKey { X = 0, Y = 5 }
+enum OnlyHashKey {
+    X = 0,
+    Y = 5,
+}
 struct OnlyHashValue { 1: optional i64 n }
 struct OnlyListElem { 1: optional bool b }
 struct OnlySetElem { 1: required i32 k }
@@ -28,7 +34,15 @@ exception OnlyThrown { 1: string why }
 struct OnlyArgument { 1: optional i32 v }
 struct OnlyResult { 1: optional i32 v }
 struct OnlyInArgContainer { 1: optional i32 v }
-enum OnlyEnumDefault { P = 1, Q = 2 }
+enum OnlyEnumDefault {
+    P = 1,
+    Q = 2,
+}
+enum OnlyViaDefaultPath {
+    LOW = 1,
+    NORMAL = 5,
+}
+const i32 ONLY_VIA_CONST = 7
 
 struct Hub {
     1: required map<OnlyBtreeKey, string> by_kind (pilota.rust_type = "btree"),
@@ -44,6 +58,8 @@ struct Hub {
     11: optional OnlyOptionalField opt,
     12: optional Pick pick,
     13: optional OnlyEnumDefault mode = OnlyEnumDefault.Q,
+    14: required i32 prio = OnlyViaDefaultPath.NORMAL,
+    15: optional i32 seven = ONLY_VIA_CONST,
 }
 
 service Reach {
